@@ -62,6 +62,12 @@ def parseDisk (s : String) : Option (List DiskEnt) :=
       let sz ← sz.toNat?
       let k ← parseKind k
       pure { path := p, size := sz, kind := k }
+    | [p, sz, k, alts] => do
+      let p ← pathOfHex p
+      let sz ← sz.toNat?
+      let k ← parseKind k
+      let alts ← pathList alts
+      pure { path := p, size := sz, kind := k, alts := alts }
     | _ => none
 
 def parseCache (s : String) : Option (Option (List Entry)) :=
